@@ -221,6 +221,12 @@ def patNeg (pats : Bytes) : List Bytes :=
 def patListMatches (pats value : Bytes) : Bool :=
   (patPos pats).any (fun p => wildMatch p value) && !(patNeg pats).any (fun p => wildMatch p value)
 
+/-- `WildcardPatternList(list_of_patterns).matches(value)`: the patterns are given one by one (a `Host` line's
+    whitespace-separated arguments; a comma is an ordinary character there, as in OpenSSH) -/
+def patListMatchesL (pats : List Bytes) (value : Bytes) : Bool :=
+  (pats.filter (fun p => p.head? ≠ some chBang)).any (fun p => wildMatch p value) &&
+  !((pats.filter (fun p => p.head? = some chBang)).map List.tail).any (fun p => wildMatch p value)
+
 /-- `HostPatternList(pats).matches(None, addr, ip)` for patterns that are not CIDR networks:
     `WildcardHostPattern.matches` requires a non-empty address -/
 def hostPatListMatches (pats addr : Bytes) : Bool :=
